@@ -1,4 +1,9 @@
-"""Region predicates of known findings (complements of the `_partial` hypotheses)."""
+"""Region predicates of known findings (complements of the `_partial` hypotheses) — hierarchy slice (C17).
+
+No region is registered any more: the only C17 finding (`c17_single_frame_slice`, IndexError from `_gauc` when a
+query's window slice held one frame) was repaired by commit a550b6d; its two entries in known_findings.json are
+`status: "fixed"` (their witnesses are re-run on every check and must pass), and a fixed entry suppresses nothing.
+"""
 REGIONS = {}
 
 
@@ -7,28 +12,3 @@ def region(name):
         REGIONS[name] = fn
         return fn
     return deco
-
-
-# ---- C17 -------------------------------------------------------------------------------------------
-@region("c17_single_frame_slice")
-def c17_single_frame_slice(inp, what=""):
-    """`_gauc` takes `.toarray().squeeze()` of the query's window slice; when that slice holds exactly one
-    frame (query 0 with floor(window/frame_size) == 1, or a one-frame track) the result is 0-dimensional and
-    `[:idx]` raises IndexError.  Complement of the hypothesis of `Mir.C17.gauc_total_partial` / the second branch of
-    `Mir.C17.tmeasure_total_partial` (min(n, w) = 1 with n = frames of the track, w = window in frames)."""
-    import math
-    from fractions import Fraction as Fr
-    if what and "raised IndexError" not in what:
-        return False        # the finding is the IndexError; any other failure on these inputs is not listed
-    fs = Fr(inp["frame_size"])
-    if fs <= 0:
-        return False
-    window = inp.get("window", None)
-    if window is not None and fs > Fr(window):
-        return False
-    bs = [Fr(x) for lv in inp["ref"] for iv in lv for x in iv]
-    if not bs:
-        return False
-    n = math.floor(max(bs) / fs) - math.floor(min(bs) / fs)
-    w = None if window is None else math.floor(Fr(window) / fs)
-    return n >= 1 and (n == 1 or w == 1)
